@@ -245,7 +245,8 @@ def simulate(gene, haplotypes, rl=100, depth=20, ref=None, rng=None, neutral=Non
     return reads
 
 
-def write_bam(path, chrom, contig_len, reads, extra_contigs=(), sort=True):
+def write_bam(path, chrom, contig_len, reads, extra_contigs=(), sort=True, fmt="bam"):
+    """fmt='sam' writes an (unindexed) text SAM file instead."""
     import array
 
     import pysam
@@ -254,7 +255,7 @@ def write_bam(path, chrom, contig_len, reads, extra_contigs=(), sort=True):
               "SQ": [{"SN": chrom, "LN": int(contig_len)}] + [{"SN": c, "LN": int(n)} for c, n in extra_contigs]}
     if sort:
         reads = sorted(reads, key=lambda r: (1 if r.get("unmapped") else 0, r.get("tid", 0), r["start"]))
-    with pysam.AlignmentFile(path, "wb", header=header) as out:
+    with pysam.AlignmentFile(path, "wb" if fmt == "bam" else "w", header=header) as out:
         for r in reads:
             a = pysam.AlignedSegment(out.header)
             a.query_name = r["name"]
@@ -277,7 +278,8 @@ def write_bam(path, chrom, contig_len, reads, extra_contigs=(), sort=True):
             for t, v in r.get("tags", {}).items():
                 a.set_tag(t, v)
             out.write(a)
-    pysam.index(path)
+    if fmt == "bam":
+        pysam.index(path)
     return path
 
 
